@@ -11,6 +11,9 @@ structure D where
   started : Bool := false
   /-- a flush function returned an error that no call of Flush / FlushWait has returned to the caller yet -/
   unreported : Bool := false
+  /-- a split of the region holding this key, performed by the store when the first ResolveLock for that region arrives
+      (after the range task was cut, before the request is served) -/
+  armed : Option Bytes := none
   /-- commit point: what Commit told the caller and whether the primary is committed in the store -/
   answer : Option Answer := none
   pcommitted : Bool := false
@@ -101,8 +104,22 @@ def chkFlush (d : D) : String :=
 def lostErr (d : D) : Bool := d.unreported
 
 /-- a commit that did not happen: execute()'s deferred cleanup rolls the flushed locks back when both bounds are set -/
+def sortKeys (ks : List Bytes) : List Bytes := ((ks.map fun x => (x, ([] : Bytes))).foldr insertSorted []).map (·.1)
+
+/-- the region layout the resolve handler ends up working on: the armed split happens iff the range task visits the
+    region that holds its key; the handler then re-locates and walks on to the end of its task, so the regions that get
+    a ResolveLock are those the range task would visit on the new layout -/
+def splitsAtResolve (d : D) : List Bytes :=
+  match d.armed with
+  | some k =>
+    if !d.splits.contains k && (runOnRange d.splits d.s.pStart d.s.pEnd).any (·.has k) then sortKeys (k :: d.splits)
+    else d.splits
+  | none => d.splits
+
 def cleanupAfter (d : D) (kind : String) : D × String :=
   if d.s.cfg.layer && !d.s.pStart.isEmpty && !d.s.pEnd.isEmpty then
+    let sp := splitsAtResolve d
+    let d := { d with splits := sp, armed := none }
     let rs := runOnRange d.splits d.s.pStart d.s.pEnd
     ({ d with resolved := some (rs, false) },
      s!"{kind} cleanup range {Bytes.toHex d.s.pStart} {Bytes.toHex d.s.pEnd} regions {regionsStr rs}")
@@ -147,7 +164,9 @@ def doCommit (d : D) (mem : Nat) (l1 l2 : Completion) (script : List Attempt) : 
           let d3 := { d2 with pcommitted := c, answer := some (pipelinedAnswer res) }
           match res with
           | .ok =>
-            ({ d3 with resolved := some (rs, true) },
+            let sp := splitsAtResolve d3
+            let rs := runOnRange sp d3.s.pStart d3.s.pEnd
+            ({ d3 with resolved := some (rs, true), splits := sp, armed := none },
              s!"ok range {Bytes.toHex d2.s.pStart} {Bytes.toHex d2.s.pEnd} regions {regionsStr rs} primary {Bytes.toHex d2.s.primary}")
           | .err true => (d3, "err commit undetermined")            -- undetermined flag set: no cleanup
           | .err false =>
@@ -163,6 +182,8 @@ def doRollback (d : D) (l : Completion) : D × String :=
   let (d1, _) := apply d (.flushWait l)
   -- Rollback ignores the result of FlushWait; the transaction is over, nothing can be lost any more
   let d1 := { d1 with unreported := false, s := { d1.s with ttl := if d1.s.ttl == .running then .closed else d1.s.ttl } }
+  let sp := if d1.s.pStart.isEmpty || d1.s.pEnd.isEmpty then d1.splits else splitsAtResolve d1
+  let d1 := { d1 with splits := sp, armed := none }
   match resolveRegions d1.s d1.splits false with
   | some rs =>
     ({ d1 with resolved := some (rs, false) },
@@ -275,9 +296,13 @@ def step (d : D) (line : String) : D × String :=
     | some k =>
       if k.isEmpty then (d, "bad-op")
       else if !d.s.cfg.layer || d.splits.contains k then (d, "ok")
-      else ({ d with splits := ((k :: d.splits).map fun x => (x, ([] : Bytes))).foldr insertSorted [] |>.map (·.1) }, "ok")
+      else ({ d with splits := sortKeys (k :: d.splits) }, "ok")
     | none => (d, "bad-op")
   -- a region error on the next BufferBatchGet: retried by the client, invisible to the buffer
+  | ["splitonresolve", k] =>
+    match parseHex k with
+    | some k => if k.isEmpty then (d, "bad-op") else if d.s.cfg.layer then ({ d with armed := some k }, "ok") else (d, "ok")
+    | none => (d, "bad-op")
   | ["buferr", e] => if e == "notleader" || e == "busy" then (d, "ok") else (d, "bad-op")
   -- the buffer reads its store tier at the buffer tier, always
   | ["chk-tier"] => (d, "ok")
